@@ -48,9 +48,13 @@ Init == \/ c \in {"acc"} \X Chains \X Uses \X {0, 1} \X {"D", "DL"}   \* a secon
         \/ c \in {"const"} \X Chains \X Uses \X {0} \X {"D0"}
         \* family "dim": the first local only sizes a local array that is never used; the output does not depend on it
         \/ c \in {"dim"} \X {<<>>} \X (IF Template THEN {"Gin"} ELSE {"Rn"}) \X {0, 1} \X {"D", "DL"}
+        \* family "viasig" (templates): the accumulator flows into an intermediate signal (`t <-- acc`), which alone is read by an
+        \* assertion (At) or a branch condition (It): a sink reached only through a signal that is neither exported nor constrained
+        \/ Template /\ c \in {"viasig"} \X (Chains \cup {<<>>}) \X {"At", "It"} \X {0} \X {"D", "DL"}
 Next == UNCHANGED c
 Spec == Init /\ [][Next]_c
 Toks == IF c[1] = "dim" THEN <<c[5]>> \o (IF c[4] = 1 THEN <<"Sacc">> ELSE <<>>) \o <<"DAv", c[3], "}">>
+        ELSE IF c[1] = "viasig" THEN <<c[5]>> \o Build(c[2], <<"Sacc">>) \o <<"Gt", c[3], "}">>
         ELSE IF c[1] = "const" THEN <<"D0">> \o BuildK(c[2]) \o <<c[3], "}">>
         ELSE IF c[1] = "acc" THEN <<c[5]>> \o Build(c[2], <<"Sacc">>) \o (IF c[4] = 1 THEN <<"Sacc">> ELSE <<>>) \o <<c[3], "}">>
         ELSE <<"DL", "DA">> \o Build(c[2], <<"SAv", "Sacc">>) \o <<c[3], "}">>
